@@ -28,6 +28,10 @@ type ClassModel struct {
 
 	// methodList - stores all available methods definition of class
 	methodList map[string]*Function
+
+	// module - the module whose source defines this class (nil for classes defined in
+	// native code): methods of its objects run there, wherever they are called from
+	module *r.Module
 }
 
 // NewClassModel - create new empty r.ClassRef
@@ -61,6 +65,17 @@ func (cm *ClassModel) Construct(params []r.Element) (r.Element, error) {
 // //// GETTERS //////
 func (cm *ClassModel) GetName() string {
 	return cm.name
+}
+
+// GetModule - the module that defines this class (nil: defined in native code)
+func (cm *ClassModel) GetModule() *r.Module {
+	return cm.module
+}
+
+// SetModule - record the module that defines this class
+func (cm *ClassModel) SetModule(module *r.Module) *ClassModel {
+	cm.module = module
+	return cm
 }
 
 // GetPropList - list all defined properties to help duplicate initial properties to new Object
